@@ -23,6 +23,12 @@ class OpError(Exception):
     """malformed program (harness bug), never a verdict"""
 
 
+class SubVariable(puan.variable):
+    """a user-defined subclass of puan.variable (the library supports them: see
+    test_constructing_proposition_model_with_variable_sub_classes); importable as pss.worker.SubVariable in every
+    interpreter of the simulation, so it pickles"""
+
+
 # ----------------------------------------------------------------------------- recipes
 
 def _var_spec(v):
@@ -39,6 +45,14 @@ def build(r, resolve):
         return puan.variable(r[1], (r[2], r[3]))
     if t == "str":
         return r[1]
+    if t == "subvar":
+        return SubVariable(r[1], (r[2], r[3]))
+    if t == "rawpoly":
+        # a configurator polyhedron built by hand: rows (support column first), dtype, variables, default prios
+        vs = [puan.variable(v[0], (v[1], v[2])) for v in r[3]]
+        dt = np.dtype(r[2])
+        dpv = None if r[4] is None else np.array(r[4], dtype=np.int64)
+        return pnd.ge_polyhedron_config(np.array(r[1], dtype=dt), default_prio_vector=dpv, variables=vs, dtype=dt.type)
     if t == "ref":
         return resolve(r[1])
     ch = lambda xs: [build(x, resolve) for x in xs]
